@@ -216,7 +216,9 @@ func abnormal(raw json.RawMessage, timeout bool, stderr string) interface{} {
 func boundaryCase(r *rand.Rand, id string) Case {
 	k := 5 + r.Intn(6) // expandable nodes
 	in := Input{DI: map[string]string{}}
-	name := func(i int) Callee { return Callee{Pkg: "p", Node: fmt.Sprintf("T%d", i%3), Name: fmt.Sprintf("n%d", i)} }
+	name := func(i int) Callee {
+		return Callee{Pkg: "p", Node: fmt.Sprintf("T%d", i%3), Name: fmt.Sprintf("n%d", i)}
+	}
 	ms := make([]Method, k)
 	for i := 0; i < k; i++ {
 		c := name(i)
